@@ -15,11 +15,11 @@ MANIFEST = dict(
         "ConcatenatedModels of any depth (they evaluate like their flat chain), evaluation independent of State recording (the State-less fold = "
         "the recording loop, chain_eval_state_independent), Normalizer, Classifier<LinearModel> and KernelClassifier (label of row i = decision on the "
         "single evaluation), max pooling, linear gathers (ResizeLayer), RBFLayer, KernelExpansion over any kernel function, weighted-mean and voting "
-        "Ensemble over members that satisfy batch = single, CMAC, Conv2DModel, OneVersusOneClassifier, CARTree, soft / hard clustering models. "
+        "Ensemble over members that satisfy batch = single, CMAC, Conv2DModel, OneVersusOneClassifier, CARTree, soft / hard clustering models, DropoutLayer for a given mask. "
         "(2) parameterVector/setParameterVector round trip with the reported count: dense layer, chain (optimised and frozen layers), NESTED "
         "ConcatenatedModels with frozen sub-models (the recursive slicing of the C++ is the slicing of the flat chain: nested_params_length, "
         "nested_params_setParams, nested_frozen_child), Normalizer, KernelExpansion, RBFLayer (over the reals, log/exp encoding of the widths), CMAC, "
-        "Conv2DModel. "
+        "Conv2DModel, OneVersusOneClassifier (the vectors of the binary classifiers in order), Centroids. "
         "(3) derivatives over the reals (HasDerivAt of the coefficient-weighted output sum): dense layer weight/offset/input derivatives for every "
         "activation (rectifier/fast sigmoid away from the kink); softmax and normalizer Jacobian-vector products; "
         "the executable backward pass Chain.backward of a ConcatenatedModel of any length made of dense, element-wise neuron, softmax and normalizer "
@@ -63,7 +63,7 @@ MANIFEST = dict(
        "the backward implementation of Conv2DModel (reorder NHWC/CHWN + conv2d for the filter gradient, backprop filters + padded conv2d for the input "
        "derivative; the theorems are about the defining sums, the forward implementation IS proved), the loop nest of im2mat as such (its index map is "
        "the model), the floating-point tile numbers of CMAC (the theorems take the cast `toNat` as an arbitrary function), the spline base points "
-       "(`floor`, the cast; the tap theorems hold for arbitrary ones), DropoutLayer (oracle only, no model), RFClassifier beyond its vote, sparse inputs "
+       "(`floor`, the cast; the tap theorems hold for arbitrary ones), DropoutLayer (theorems for a given mask, dropout_input_derivative_correct; the mask is random: harness oracle only), RFClassifier beyond its vote, sparse inputs "
        "(modelled by the dense layer). Not modelled: OpenCL back ends, Padding::RepeatBorder (not implemented by the library: PoolingLayer rejects every "
        "padding but Valid, Conv2DModel treats it as ZeroPad), floating-point rounding, NearestNeighborModel (C17), serialisation (C10). What the code does "
        "with a State recorded for a different batch and not refreshed: the derivative calls read the stale intermediates (no check in release builds) - a "
@@ -453,7 +453,7 @@ def run(ctx):
             present.add(fid)
     ctx.cov["findings_present"] = sorted(present)
     r = ctx.rng.fork("c04")
-    per = 1500 if ctx.quick else 8000
+    per = 1500 if ctx.quick else 20000
     half = per // 2
     p1, p2, p3, p4 = ("F-C04-1" not in present, "F-C04-2" not in present, "F-C04-3" not in present, "F-C04-4" not in present)
     p6, p7 = "F-C04-6" not in present, "F-C04-7" not in present
